@@ -19,6 +19,9 @@
 #define SHAPEN 0
 #endif
 #define E OD_HBC_E
+#ifndef NODE_BASE
+#define NODE_BASE 11      /* node id of entry 1; entry i monitors NODE_BASE + i - 1 (boundary instances: 1.., ..127) */
+#endif
 
 typedef struct { uint8_t act; uint8_t node; uint16_t time; uint8_t ev; CO_MODE st; uint8_t run; } MH;   /* no pointers inside: safe as array */
 static MH m[E];
@@ -65,7 +68,7 @@ void harness(void)
     /* node ids and times of the entries concrete (ids are only compared for equality and the
      * written / received node id below is symbolic; symbolic ids made the chain shape symbolic
      * and cbmc did not finish), event counters and states symbolic */
-    for (i = 0; i < E; i++) { m[i].act = 0; m[i].node = (uint8_t)(11 + i); m[i].time = (uint16_t)(2 + i); m[i].ev = 0; m[i].st = CO_INVALID; m[i].run = 0; }
+    for (i = 0; i < E; i++) { m[i].act = 0; m[i].node = (uint8_t)(NODE_BASE + i); m[i].time = (uint16_t)(2 + i); m[i].ev = 0; m[i].st = CO_INVALID; m[i].run = 0; }
     for (j = 0; j < SHAPEN; j++) {
         uint32_t k = shape[SHAPEN - 1 - j] - 1;          /* activation order = reverse chain order */
         CO_ERR e;
